@@ -274,6 +274,9 @@ func (x *X1) run(prefix []int, prefixPoints []point, useCache bool) *Exec {
 		// quiescent and fully drained: anything still parked that is not a poller-at-rest is a deadlock
 		var stuck []string
 		for _, t := range w.S.Live() {
+			if strings.HasPrefix(t.Pending(), "func:wait-") {
+				continue // a driver whose precondition never came true in this execution: not a thread of the system under test
+			}
 			stuck = append(stuck, t.Name+"@"+t.Pending())
 		}
 		if len(stuck) > 0 {
